@@ -228,4 +228,15 @@ theorem findEOL_none (b : Buf) (start : Nat) (h : findEOL b start = none) :
     rw [Option.some.inj heq] at this
     exact absurd this (by decide)
 
+/-- ties of the hand-written parts to the source that no differential run on one thread can see:
+`readFd`'s spill area belongs to the call (a `static` one would be shared by all io threads: another
+thread's `readv` overwrites it between this thread's `readv` and its `append`), and the line searches
+delegate to the library search over exactly `[from, beginWrite())` — which is what the model's
+`findCRLF`/`findEOL` are (a hand-rolled loop that peeks one byte past the readable region would find a
+stale `\n` there).  Both facts are re-extracted from the AST on every run. -/
+theorem spill_private_and_searches_delegate :
+    MuduoVerif.Gen.Buffer.extrabufPerCall = true ∧ MuduoVerif.Gen.Buffer.findCRLFIsSearch = true ∧
+    MuduoVerif.Gen.Buffer.findEOLIsMemchr = true := by decide
+
+
 end MuduoVerif.C10
